@@ -36,6 +36,9 @@ EXTENDS Integers, FiniteSets
 
 NONE == 0      \* "no configuration" (nil)
 OLD  == -1     \* a submission that carries no configuration: frr re-apply / k8s poke
+DEL  == -3     \* k8s environment: the cluster's FRRConfiguration is deleted behind the reconciler,
+EDIT == -4     \*   or overwritten with a foreign spec; the watch event follows (a poke)
+FOREIGN == -9  \* what the cluster holds after EDIT
 REJ  == -2     \* a submission the submitter's own validation rejects (session.Set whose
                \* createConfig fails): the call returns an error, nothing reaches the debouncer
 
@@ -71,8 +74,19 @@ PokeEff(s) == [s EXCEPT !.queued = TRUE]
 
 NoConfEff(s) == IF s.v = "frr" THEN OldEff(s) ELSE PokeEff(s)
 
+(* k8s: somebody else deletes / edits the object; the informer delivers the  *)
+(* event.  The configuration the reconciler wrote is no longer in place, so  *)
+(* a (repairing) reload has a cause.                                         *)
+TamperEff(s, x) ==
+  [s EXCEPT !.lastApplied = IF x = DEL THEN NONE ELSE FOREIGN,
+            !.queued = TRUE,
+            !.owed = (@ \/ s.lastSubmitted # NONE)]
+
 (* the effect of whatever a submitter carries *)
-AnyEff(s, x) == IF x = REJ THEN s ELSE IF x = OLD THEN NoConfEff(s) ELSE SubmitEff(s, x)
+AnyEff(s, x) == CASE x = REJ -> s
+                  [] x = OLD -> NoConfEff(s)
+                  [] x \in {DEL, EDIT} -> TamperEff(s, x)
+                  [] OTHER -> SubmitEff(s, x)
 
 (* a submitter is only ever held up by a running reload (the debouncer     *)
 (* goroutine is inside body / Reconcile holds the lock)                    *)
@@ -90,7 +104,8 @@ CanFire(s) == ~s.busy /\ (IF s.v = "frr" THEN s.timerSet ELSE s.queued)
 (* k8s: Reconcile finds nothing to do (no desired configuration, or the     *)
 (* cluster already holds it)                                               *)
 FireIsNoop(s) == s.v = "k8s" /\ (s.config = NONE \/ s.config = s.lastApplied)
-FireNoop(s) == [s EXCEPT !.queued = FALSE]
+FireNoop(s) == [s EXCEPT !.queued = FALSE,
+                          !.lastApplied = IF s.config = NONE THEN NONE ELSE @]  \* nil desired: the object is deleted
 
 (* the reload action is entered with configuration c                       *)
 BodyBegin(s, c) ==
